@@ -31,11 +31,17 @@ type HistResult struct {
 
 func caseRand(i int) int64 { return 11000000 + int64(i) }
 
+// isBind: every fifth history is a binding history (pool_bind.go).
+func isBind(i int) bool { return i%5 == 4 }
+
+func genHistory(i int, withKnown bool) *History {
+	return Generate(vh.NewRand(caseRand(i)), withKnown, isBind(i))
+}
+
 // RunHistory generates history i (PRNG derived from VERIF_SEED and i), runs it
 // on live objects, and compares every result with the fresh-object oracle.
 func RunHistory(i int, withKnown bool) HistResult {
-	r := vh.NewRand(caseRand(i))
-	h := Generate(r, withKnown)
+	h := genHistory(i, withKnown)
 	res := HistResult{Idx: i, Key: h.Text()}
 	input := fmt.Sprintf("history #%d (vh.NewRand(%d)): %s", i, caseRand(i), res.Key)
 	w := NewWorld(h)
@@ -133,6 +139,12 @@ func RunHistory(i int, withKnown bool) HistResult {
 	if nshared > 0 {
 		stat("histories_with_object_added_to_2+_schemas")
 	}
+	if isBind(i) {
+		stat("bind_histories")
+		for _, st := range bindStats(h) {
+			stat(st)
+		}
+	}
 	if h.KnownClass(len(h.Ops)) != "" {
 		stat("histories_in_class_K-C11-sharedallof")
 	}
@@ -141,6 +153,94 @@ func RunHistory(i int, withKnown bool) HistResult {
 	d := sha1.Sum([]byte(res.Transcript))
 	res.Digest = vh.Hex(d[:8])
 	return res
+}
+
+// bindStats: what a binding history exercises.
+func bindStats(h *History) []string {
+	var out []string
+	// adders[x] = roots (objects that are not themselves added anywhere) type object x was added to
+	isAdded := map[int]bool{}
+	for _, op := range h.Ops {
+		if op.Code == OpAddType && op.Arg != op.Obj {
+			isAdded[op.Arg] = true
+		}
+	}
+	table := map[int]map[string]int{} // root -> name -> object
+	for _, op := range h.Ops {
+		if op.Code == OpAddType && !isAdded[op.Obj] {
+			if table[op.Obj] == nil {
+				table[op.Obj] = map[string]int{}
+			}
+			if _, dup := table[op.Obj][op.Name]; !dup {
+				table[op.Obj][op.Name] = op.Arg
+			}
+		}
+	}
+	differ := func(a, b int) bool { // do the tables of roots a and b bind some name to different texts / only one of them binds it?
+		for n, x := range table[a] {
+			y, ok := table[b][n]
+			if !ok || h.Objs[x] != h.Objs[y] {
+				return true
+			}
+		}
+		for n := range table[b] {
+			if _, ok := table[a][n]; !ok {
+				return true
+			}
+		}
+		return false
+	}
+	sharing := map[[2]int]bool{} // pairs of roots that share a type object and bind differently
+	for a := range table {
+		for b := range table {
+			if a >= b || !differ(a, b) {
+				continue
+			}
+			for _, x := range table[a] {
+				for _, y := range table[b] {
+					if x == y && h.Objs[x].Kind == KSchema {
+						sharing[[2]int{a, b}] = true
+					}
+				}
+			}
+		}
+	}
+	if len(sharing) > 0 {
+		out = append(out, "bind_type_object_shared_by_roots_that_bind_differently")
+	}
+	// a root is observed (compiled) after another root of such a pair was compiled
+	compiled := map[int]bool{}
+	after, nobs := false, 0
+	first := -1
+	for _, op := range h.Ops {
+		if !compilesTarget(op.Code) || isAdded[op.Obj] || table[op.Obj] == nil {
+			continue
+		}
+		for p := range sharing {
+			if (p[0] == op.Obj && compiled[p[1]]) || (p[1] == op.Obj && compiled[p[0]]) {
+				after = true
+				nobs++
+			}
+		}
+		if first < 0 {
+			first = op.Obj
+		}
+		compiled[op.Obj] = true
+	}
+	if after {
+		out = append(out, "bind_root_observed_after_a_differently_binding_root_compiled_the_shared_type")
+		out = append(out, fmt.Sprintf("bind_such_observations_%02d", imin(nobs, 12)))
+	}
+	if first >= 0 {
+		rank := 0
+		for a := range table {
+			if a < first {
+				rank++
+			}
+		}
+		out = append(out, fmt.Sprintf("bind_first_compiled_root_is_number_%d_of_%d", rank+1, len(table)))
+	}
+	return out
 }
 
 // exampleKind: the kind of the value an Example() result starts with.
@@ -251,9 +351,11 @@ func runAll(n, workers int, withKnown, reverse bool, garbage bool) (out []HistRe
 // Run is the command c11-history.
 //
 //	--no-known   do not generate the K-C11-sharedallof situations
+//	--no-multierr  skip the multi-error stream (multierr.go)
+//	--only-multierr  the multi-error stream alone
 //	--child      (hidden) print one digest per history and exit
 func Run(args []string) {
-	withKnown, child, garbage := true, false, false
+	withKnown, child, garbage, noMulti, onlyMulti := true, false, false, false, false
 	for _, a := range args {
 		switch a {
 		case "--no-known":
@@ -262,9 +364,13 @@ func Run(args []string) {
 			child = true
 		case "--garbage":
 			garbage = true
+		case "--no-multierr":
+			noMulti = true
+		case "--only-multierr":
+			onlyMulti = true
 		}
 	}
-	n := vh.Pick(5000, 60000)
+	n := vh.Pick(6250, 75000) // four in five as before the binding histories were added (5000 / 60000), one in five binding
 	workers := runtime.GOMAXPROCS(0)
 	if child {
 		rs, to := runAll(n, workers, withKnown, false, garbage)
@@ -279,14 +385,19 @@ func Run(args []string) {
 		return
 	}
 	rep := vh.NewReport("c11-history",
-		"histories of <= 12 public operations (object creations not counted) over 1..3 root schemas drawn from a pool of "+fmt.Sprint(len(AllRoots()))+" root texts + "+fmt.Sprint(len(Schemas)-len(AllRoots()))+" "+
+		"histories of <= 12 public operations (object creations not counted) over 1..3 root schemas drawn from a pool of "+fmt.Sprint(len(AllRoots()))+" root texts + "+fmt.Sprint(nTypeTexts(false))+" "+
 			"user-type texts (valid, syntactically / semantically invalid, failing in an added type, enum rules, regex types, allOf, or, key "+
 			"shortcuts, recursion, self-added type; every ROOT KIND: scalar of each kind, array empty / of scalars / of objects / nested / of references, "+
 			"empty object, type-shortcut roots @t and or-shortcut roots @a | @b resolving to each kind, or-rule roots), their AddRule/AddType set-up interleaved with Check/Validate/Len/Example/GetAST/"+
 			"UsedUserTypes, late AddType/AddRule, "+fmt.Sprint(NDocs())+" documents incl. malformed / trailing bytes (Check/Len/NextLexeme, Check before Validate on one object), 6 enum rules, 6 regex types; type, rule and document "+
-			"objects are shared between schemas of a history (one history in three is sharing-focused: 2-3 roots with common type / rule specs, common objects nearly always shared, set-up first, fitting documents); every result is compared with the same operation on fresh objects (same "+
+			"objects are shared between schemas of a history (one history in three is sharing-focused: 2-3 roots with common type / rule specs, common objects nearly always shared, set-up first, fitting documents); "+
+			"one history in five is a BINDING history: 2-3 roots of the family ("+fmt.Sprint(len(bindShareds))+" shared type texts referring to @x / @y by every reference form) x ("+fmt.Sprint(len(bindBindings))+" bindings of the name per root: "+
+			"each JSON kind, two object shapes, regex type, type with a missing reference, invalid, not loading, missing) x (4 root forms) = "+fmt.Sprint(len(BindRoots()))+" root texts, ONE type object added to all roots, roots set up and compiled in any order; "+
+			"every result is compared with the same operation on fresh objects (same "+
 			"AddType/AddRule prefix), every handed-out value (example bytes, AST, error value, used-type slice, enum values, lexeme) is deep-copied at hand-out and re-read after EVERY later call (live and fresh-object) and at the end; whole run repeated in-process and in 3 child processes. "+
-			"Non-trivial = some object is the target of >= 2 non-set-up operations or the argument of >= 2 operations")
+			"MULTI-ERROR cases (keys 'multierr: …'): root + 2-4 added types with several simultaneous errors (in the root, in named types, in unnamed or-shortcut / or rule-set types, AddType failures), each input constructed from scratch "+fmt.Sprint(vh.Pick(300, 600))+
+			" times with heap churn (allocations of varying sizes and kinds, big blocks, drops, occasional runtime.GC()) between all calls on all workers at once: AddType errors, Check (code, position, file, user type, message) and one more call must be identical in all constructions. "+
+			"Non-trivial = some object is the target of >= 2 non-set-up operations or the argument of >= 2 operations; multi-error case: >= 2 wrong sites")
 	// diffs are buffered so that unclassified ones are reported first (the
 	// report keeps the first 25 only)
 	var buffered []vh.Diff
@@ -306,9 +417,28 @@ func Run(args []string) {
 		}
 		rep.Finish()
 	}
+	// the multi-error stream first: the heap is still small, a GC cycle cheap
+	if !noMulti {
+		nme, reps := vh.Pick(160, 1200), vh.Pick(300, 600)
+		t0 := time.Now()
+		mrs, mto := runMultiErr(nme, reps, workers)
+		if mto >= 0 {
+			addDiff(vh.Diff{Component: "C11-fresh-constructions", Input: fmt.Sprintf("multi-error case #%d: %s", mto, meGenerate(mto).Text(true)), Impl: "TIMEOUT", Model: "every operation terminates"})
+			finish()
+			return
+		}
+		reportMultiErr(rep, addDiff, mrs, reps)
+		rep.Extra["multierr_seconds"] = fmt.Sprintf("%.1f", time.Since(t0).Seconds())
+		mrs = nil
+		runtime.GC()
+		if onlyMulti {
+			finish()
+			return
+		}
+	}
 	rs, to := runAll(n, workers, withKnown, false, false)
 	if to >= 0 {
-		h := Generate(vh.NewRand(caseRand(to)), withKnown)
+		h := genHistory(to, withKnown)
 		addDiff(vh.Diff{Component: "C11-history", Input: fmt.Sprintf("history #%d: %s", to, h.Text()), Impl: "TIMEOUT", Model: "every operation terminates"})
 		finish()
 		return
@@ -333,7 +463,7 @@ func Run(args []string) {
 				continue
 			}
 			bad++
-			h := Generate(vh.NewRand(caseRand(i)), withKnown)
+			h := genHistory(i, withKnown)
 			if bad > 5 {
 				addDiff(vh.Diff{Component: "C11-mapiter", Input: fmt.Sprintf("history #%d (vh.NewRand(%d)): %s", i, caseRand(i), h.Text()),
 					Impl: "transcript digest differs in " + label, Model: "identical canonical results in every run", Class: h.KnownClass(len(h.Ops))})
@@ -409,6 +539,17 @@ func Run(args []string) {
 	}
 	rep.Extra["known_stream"] = fmt.Sprint(withKnown)
 	finish()
+}
+
+// nTypeTexts: user-type texts of the pool outside (false) / inside (true) the binding family.
+func nTypeTexts(bind bool) int {
+	n := 0
+	for _, s := range Schemas {
+		if s.IsType && s.Bind == bind {
+			n++
+		}
+	}
+	return n
 }
 
 func firstDiffLine(a, b string) string {
